@@ -89,6 +89,9 @@ def det(M):
 
 
 def cramer(A, b):
+    for row in A:
+        for e in row:
+            if not isinstance(e, X): raise Unknown(f"matrix entry {e!r}"[:160])
     D = det(A)
     if D.iszero(): raise Unknown("singular symbolic system")
     out = []
@@ -117,7 +120,10 @@ class Run:
         seq = _concrete_seq(data)
         if isinstance(data, ArrParam): chans = (data.name,)
         elif seq is not None and all(isinstance(e, ArrParam) for e in seq) and len(seq) in (1, 2): chans = tuple(e.name for e in seq)
-        else: return Opaque(f"ltf called with unrecognised data {data!r}")
+        else:
+            mm = next((e for e in (seq or [data]) if isinstance(e, Mismatch)), None)
+            if mm is not None: return mm
+            return Opaque(f"ltf called with unrecognised data {data!r}")
         s.calls.append((chans, fs, rest, node))
         iscsd = len(chans) == 2
         run = s
@@ -350,6 +356,8 @@ class Run:
                             args.extend(seq)
                         else: args.append(I.eval(a, st))
                     if len(args) != len(f.syms): return Mismatch("lambdified function called with a different number of values than symbols")
+                    mm = next((v for v in args if isinstance(v, Mismatch)), None)
+                    if mm is not None: return mm
                     if not all(isinstance(v, X) for v in args): return Opaque("lambdified function applied to non-numeric values")
                     return f.expr.subst(dict(zip(f.syms, args)))
                 return NotImplemented
